@@ -40,6 +40,7 @@ class Ctx:
         self.violation_keys = set()
         self.violations_total = 0
         self.errors = []
+        self.gen_errors = []
         self.evaluations = 0
         self.current_case = None
         self.index = None
@@ -113,7 +114,7 @@ class Ctx:
     def result(self):
         return {"prop": self.prop, "spec": self.spec, "counters": self.counters,
                 "digests": sorted(self.digests), "sets": {k: sorted(v) for k, v in self.sets.items()}, "samples": self.samples, "violations": self.violations,
-                "violations_total": self.violations_total, "errors": self.errors,
+                "violations_total": self.violations_total, "errors": self.errors, "gen_errors": self.gen_errors,
                 "evaluations": self.units or self.evaluations, "cases": self.evaluations, "wall_s": round(time.time() - self.t0, 3)}
 
 
@@ -192,7 +193,11 @@ def default_run_shard(mod, spec, ctx):
         try:
             case = mod.gen_case(rng, ctx)
         except Exception:       # pylint: disable=broad-except
-            ctx.error("generator: " + traceback.format_exc(limit=6))
+            # a workload generator that fails on a rare draw loses one case, it does not invalidate the others: counted,
+            # reported, and fatal only when frequent (see vf/run.py)
+            ctx.count("generator_errors")
+            if len(ctx.gen_errors) < 3:
+                ctx.gen_errors.append(traceback.format_exc(limit=6))
             continue
         if case is None:
             continue
